@@ -415,7 +415,10 @@ def check_body(body, univ, opts, st):
     compiler_seen = {}
 
     def report(form, text, observed, expected, group, ok_fn, oracle_prog, collector):
-        history, hint = diagnose(text, ok_fn)
+        if 'RecursionError' in observed:
+            history, hint = hist[:-1], None         # re-running a runaway recursion three times is not worth it
+        else:
+            history, hint = diagnose(text, ok_fn)
         if hint in ('stale-compiled-memo', 'compiled-path-differs'):
             # root cause outside function application (C05's subject): reported once per function body and kind,
             # the first in enumeration order; later ones of the same body are counted in that report's case
